@@ -25,7 +25,7 @@ Local Open Scope Z_scope.
 
 Inductive libkind :=
   (* FlipJumpPreprocessorException *)
-  | KLabelTwice | KPadEval | KPadNonPositive | KPadUnaligned
+  | KLabelTwice | KPadEval | KPadNonPositive | KPadUnaligned | KPadTooHigh
   | KSegmentEval | KSegmentUnaligned | KReserveEval | KReserveUnaligned
   (* FlipJumpExprException escaping from eval_new *)
   | KExprFold
@@ -101,9 +101,14 @@ Inductive lastop :=
 Section Model.
 Variable ww : N.       (* log2 of the memory width *)
 Variable ver : N.      (* fjm version 0..3 *)
-Variable strict_range : bool.   (* false = the code as it is.  true = the announced fix of finding F8: labels_resolve rejects
-                                   an op / wflip whose words do not fit [0, 2^w) with the same "Not enough space ... in op"
-                                   exception that insert_wflip_ops raises for the flip value *)
+Variable strict_range : bool.   (* true = the code as it is since the fix of finding F8 (commit b770ddf): insert_fj_op asserts
+                                   flip and jump in [0, 2^w); insert_wflip_ops (non-zero value) asserts word_address,
+                                   word_address + bit_length(value) - 1 and return_address; all raise the "Not enough space
+                                   ... in op" FlipJumpAssemblerException (KWflipValue).  false = the code before the fix
+                                   (kept to state what the fix changed: Properties/C02.v, C02_F8_regression_witness).
+                                   The checks commit 3bd0fc0 added to Writer.add_data / add_segment (word range, even data
+                                   length, 64-bit fields, data range) cannot fire after validate_addresses and these asserts;
+                                   `packable` below stands for the word-range one. *)
 Definition wd : Z := wz ww.
 Definition dwd : Z := 2 * wd.
 
@@ -142,7 +147,8 @@ Definition insert_reserve (st : pstate) (size : Z) : pstate :=
 Definition align_current_address (st : pstate) (n : Z) : result pstate :=
   if negb (p_addr st mod dwd =? 0) then LibError KPadUnaligned
   else let k := ((- p_addr st) / dwd) mod n in
-       Ok (mkp (p_addr st + k * dwd) (p_labels st) (p_used st) (LPadding k :: p_ops st) (p_seg st)).
+       if p_addr st + k * dwd >? 2 ^ wd then LibError KPadTooHigh      (* since commit 0ef0f9a *)
+       else Ok (mkp (p_addr st + k * dwd) (p_labels st) (p_used st) (LPadding k :: p_ops st) (p_seg st)).
 
 (* one iteration of the loop of resolve_macro_aux *)
 Definition pre_step (st : pstate) (s : stmt) : result pstate :=
@@ -397,7 +403,7 @@ Definition resolve_step (st : bstate) (op : lastop) : result bstate :=
     | Some vf => match exact_eval (b_labels st) j with
                  | None => LibError KOpEval
                  | Some vj => if strict_range && negb (in_memory vf && in_memory vj) then LibError KWflipValue
-                              else Ok (insert_fj_op st vf vj)
+                              else Ok (insert_fj_op st vf vj)      (* the asserts of insert_fj_op *)
                  end
     end
   | LWordFlip a v r =>
@@ -408,7 +414,10 @@ Definition resolve_step (st : bstate) (op : lastop) : result bstate :=
                 | Some V => match exact_eval (b_labels st) r with
                             | None => LibError KOpEval
                             | Some R =>
-                              if strict_range && negb (in_memory R && in_memory A && in_memory (A + Z.log2 (Z.max V 1)))
+                              (* the asserts of insert_wflip_ops: value 0 goes through insert_fj_op(0, R) only *)
+                              if strict_range &&
+                                 negb (if V =? 0 then in_memory R
+                                       else negb (in_memory V) || (in_memory A && in_memory (A + Z.log2 V) && in_memory R))
                               then LibError KWflipValue
                               else insert_wflip_ops st A V R
                             end
@@ -484,7 +493,7 @@ Definition libkind_code (k : libkind) : N :=
   | KLabelTwice => 1 | KPadEval => 2 | KPadNonPositive => 3 | KPadUnaligned => 4 | KSegmentEval => 5
   | KSegmentUnaligned => 6 | KReserveEval => 7 | KReserveUnaligned => 8 | KExprFold => 9 | KOpEval => 10
   | KWflipValue => 11 | KBoundsUnaligned => 12 | KNoSpace => 13 | KAddSegment => 14 | KNoFirstOp => 15
-  | KFirstNotSegment => 16 | KNotPrimitive => 17
+  | KFirstNotSegment => 16 | KNotPrimitive => 17 | KPadTooHigh => 18
   end%N.
 
 Fixpoint npairs_eqb (a b : list (N * N)) : bool :=
